@@ -70,7 +70,43 @@ func (v verificationMethodValidator) Validate(document did.Document) error {
 			return fmt.Errorf("invalid verificationMethod: %w", err)
 		}
 	}
+	// A verification relationship either refers to one of the verification methods above, or embeds a verification method.
+	// The same rules apply to embedded verification methods.
+	relationships := []struct {
+		name    string
+		entries did.VerificationRelationships
+	}{
+		{"authentication", document.Authentication},
+		{"assertionMethod", document.AssertionMethod},
+		{"keyAgreement", document.KeyAgreement},
+		{"capabilityInvocation", document.CapabilityInvocation},
+		{"capabilityDelegation", document.CapabilityDelegation},
+	}
+	for _, relationship := range relationships {
+		for _, entry := range relationship.entries {
+			if entry.VerificationMethod == nil {
+				return fmt.Errorf("invalid %s: missing verificationMethod", relationship.name)
+			}
+			if !isEmbeddedVerificationMethod(entry) {
+				continue
+			}
+			if err := verifyDocumentEntryID(document.ID, entry.ID.URI(), knownKeyIds); err != nil {
+				return fmt.Errorf("invalid %s: %w", relationship.name, err)
+			}
+			if err := v.verifyThumbprint(entry.VerificationMethod); err != nil {
+				return fmt.Errorf("invalid %s: %w", relationship.name, err)
+			}
+		}
+	}
 	return nil
+}
+
+// isEmbeddedVerificationMethod returns whether the verification relationship embeds its verification method,
+// instead of referring to a verification method of the document.
+func isEmbeddedVerificationMethod(relationship did.VerificationRelationship) bool {
+	// the reference is not exported, but it decides how the relationship is marshalled: a reference is marshalled as string.
+	data, err := json.Marshal(relationship)
+	return err != nil || len(data) == 0 || data[0] != '"'
 }
 
 func (v verificationMethodValidator) verifyThumbprint(method *did.VerificationMethod) error {
